@@ -535,7 +535,7 @@ def run_check(prop: Prop, tier: str, seed: int) -> int:
             cl = prop.classify(c, o)
             hist[cl] = hist.get(cl, 0) + 1
             if not r["spec"]:
-                fid = prop.finding_of(c, o)
+                fid = prop.finding_of(c, o) if r["corr"] else None
                 if r["corr"] and fid in known:
                     findings_seen[fid] = findings_seen.get(fid, 0) + 1
                 else:
